@@ -165,6 +165,17 @@ func (rn *runner) judge(progs []*Prog, br *BatchResult, shrinkPass bool) {
 			// the literal form must denote the intended payload in the interpreted run (non-vacuity of the scalar stream)
 			scEffect(c, p, io)
 		}
+		if len(p.PartIDs) > 0 && io.Exit != -1 {
+			// every part of a multi-part program must have run (a part that ends the script would hide the rest)
+			for i, id := range p.PartIDs {
+				if strings.Contains(io.Out, "#"+id+"|") {
+					c.Hit("sc:parts-run")
+				} else {
+					c.Hit("sc:parts-not-run")
+					c.Note("part %d of %s %v printed nothing in the interpreted run (%s)", i, p.Name, p.Tags[:1], firstLines(p.Parts[i], 1))
+				}
+			}
+		}
 		if rn.explore != nil && os.Getenv("C16_ONLY") != "" {
 			fmt.Fprintf(rn.explore, "OBS %s %v same=%v\n  compiled: %s\n  interp:   %s\n", p.Name, p.Tags, co.Same(io), co, io)
 		}
